@@ -59,7 +59,8 @@ package sortio
 //@   ensures  eof-means-nothing-delivered: implies(err == sliceio.EOF, n == 0)
 //@   ensures  error-is-recorded: err == m.err
 //@   ensures  rows-outside-untouched: forall(c, 0, len(out.data), forall(k, implies(k < out.off || k >= out.off + out.len, ColMem[out.data[c].ptr][k] == old(ColMem[out.data[c].ptr][k]))))
-//@   modifies m.err, m.heap.Buffers, m.heap.Buffers[0:cap(m.heap.Buffers)], FrameBuffer.Index, FrameBuffer.Len, SReader.nreads, SReader.lastN, SReader.lastErr, rowsSupplied, sawRowsWithEOF, ColMem
+//@   modifies m.err, m.heap.Buffers, m.heap.Buffers[0:cap(m.heap.Buffers)], FrameBuffer.Index, FrameBuffer.Len, SReader.nreads, SReader.lastN, SReader.lastErr, rowsSupplied, sawRowsWithEOF, ColMem, hfixes
+//@   loop 1 step heap-order-restored-after-every-advance: hfixes == at_head(hfixes) + 1
 //@   loop 1 invariant i1: 0 <= n && n <= max && max == out.len && m.err == nil && old(m.err) == nil && m.heap == old(m.heap) && m.heap != nil && wf(out) && distinctCols(out)
 //@   loop 1 invariant i2: m.heap.Buffers.arr == old(m.heap.Buffers.arr) && m.heap.Buffers.off == old(m.heap.Buffers.off) && len(m.heap.Buffers) <= old(len(m.heap.Buffers)) && cap(m.heap.Buffers) == old(cap(m.heap.Buffers))
 //@   loop 1 invariant i3: forall(k, 0, len(m.heap.Buffers), mbufDyn(m.heap.Buffers[k]))
